@@ -95,6 +95,8 @@ def run(tier, seed):
             outs["record-memoryview"] = va(pol, rec(memoryview), memoryview)
             wmv = lambda b: memoryview(bytearray(b))            # a writable view, as buffer pools / DB drivers hand out
             outs["record-memoryview-writable"] = va(pol, rec(wmv), wmv)
+            win = lambda b: memoryview(b"\x00\x01" + bytes(b) + b"\xff")[2:-1]      # a window into a larger buffer
+            outs["record-memoryview-window"] = va(pol, rec(win), win)
         chk.evals += len(outs)
         ref = outs["dict"]
         for k, v in outs.items():
@@ -135,6 +137,8 @@ def run(tier, seed):
             outs["record-memoryview"] = vr(pol, rec(memoryview), memoryview)
             wmv = lambda b: memoryview(bytearray(b))
             outs["record-memoryview-writable"] = vr(pol, rec(wmv), wmv)
+            win = lambda b: memoryview(b"\x00\x01" + bytes(b) + b"\xff")[2:-1]
+            outs["record-memoryview-window"] = vr(pol, rec(win), win)
         chk.evals += len(outs)
         for k, v in outs.items():
             same = (v == base) or (v.startswith("ERR") and base.startswith("ERR"))
